@@ -39,6 +39,9 @@ class Err(Exception):
         super().__init__(f"invocation {n}")
         self.n = n
 
+    def __bool__(self):
+        return False
+
 
 class FlightDriver:
     def __init__(self, method=False):
